@@ -264,15 +264,20 @@ def check_closure(case):
     got = _canon_set(cl)
     want = saturate(base)
     extra, missing = got - want, want - got
+    fails = []
     if extra:
         loose = saturate(base, "loose")
         key = "closure:unsound-contraction" if got <= loose else "closure:unsound"
-        return {"key": key, "what": f"from {[_fmt(c) for c in base]} the closure contains {[_fmt(c) for c in sorted(extra, key=_fmt)][:4]} "
-                                    f"which is not derivable by symmetry/decomposition/weak union/contraction"}
+        fails.append({"key": key, "what": f"from {[_fmt(c) for c in base]} the closure contains {[_fmt(c) for c in sorted(extra, key=_fmt)][:4]} "
+                                          f"which is not derivable by symmetry/decomposition/weak union/contraction"})
     if missing:
         strict = saturate(base, "nonempty-context")
         key = "closure:incomplete:contraction-empty-context" if not (missing & strict) else "closure:incomplete"
-        return {"key": key, "what": f"from {[_fmt(c) for c in base]} the closure lacks the derivable {[_fmt(c) for c in sorted(missing, key=_fmt)][:4]}"}
+        fails.append({"key": key, "what": f"from {[_fmt(c) for c in base]} the closure lacks the derivable {[_fmt(c) for c in sorted(missing, key=_fmt)][:4]}"})
+    if fails:
+        # classes not seen on the unchanged tree first
+        fails.sort(key=lambda f: f["key"] in ("closure:unsound-contraction", "closure:incomplete:contraction-empty-context"))
+        return fails[0]
     if len(cl.get_assertions()) != len(got):
         return {"key": "closure:duplicates", "what": "closure lists the same statement twice (up to symmetry)"}
     return None
